@@ -54,6 +54,7 @@ fn answer_json(a: &Result<LeafAnswer, Term>) -> Value {
 
 pub struct Watchdog {
     deadline_ms: Arc<AtomicU64>, // 0 = idle
+    epoch: Arc<AtomicU64>,       // incremented by every arm()
     current: Arc<Mutex<String>>,
 }
 
@@ -63,11 +64,19 @@ impl Watchdog {
         let current = Arc::new(Mutex::new(String::new()));
         let d = deadline_ms.clone();
         let c = current.clone();
+        let epoch = Arc::new(AtomicU64::new(0));
+        let ep = epoch.clone();
         let t0 = Instant::now();
         std::thread::spawn(move || {
             let mut raised_at: Option<u64> = None;
+            let mut seen_epoch = 0u64;
             loop {
                 std::thread::sleep(Duration::from_millis(20));
+                let e = ep.load(Ordering::Relaxed);
+                if e != seen_epoch {
+                    seen_epoch = e;
+                    raised_at = None;
+                }
                 let dl = d.load(Ordering::Relaxed);
                 if dl == 0 {
                     raised_at = None;
@@ -95,10 +104,11 @@ impl Watchdog {
         });
         // store t0 implicitly: deadlines are relative to watchdog start
         WATCHDOG_T0.get_or_init(|| t0);
-        Watchdog { deadline_ms, current }
+        Watchdog { deadline_ms, epoch, current }
     }
     pub fn arm(&self, id: &str, timeout_ms: u64) {
         *self.current.lock().unwrap() = id.to_string();
+        self.epoch.fetch_add(1, Ordering::Relaxed);
         let now = WATCHDOG_T0.get().unwrap().elapsed().as_millis() as u64 + 1;
         self.deadline_ms.store(now + timeout_ms, Ordering::Relaxed);
     }
